@@ -128,7 +128,7 @@ func (s *Sim) startTargets(ctrl string) []objKey {
 }
 
 func (s *Sim) starved(ctrl string) bool {
-	return s.W.Cfg.Policy == "starver" && s.W.Cfg.Starve == ctrl && (s.step/25)%2 == 0
+	return !s.replaying && s.W.Cfg.Policy == "starver" && s.W.Cfg.Starve == ctrl && (s.step/25)%2 == 0
 }
 
 func (s *Sim) enabled() map[string][]Action {
@@ -346,6 +346,11 @@ func (s *Sim) Chaos() {
 		s.apply(act, fault)
 		s.noteState()
 	}
+	// everything after the decision loop must not depend on how many draws the loop made
+	// (a replay makes none): fresh sub-streams
+	s.chaosCount++
+	s.rngSched = subRng(s.Seed, fmt.Sprintf("after-chaos-%d", s.chaosCount))
+	s.rngFault = subRng(s.Seed, fmt.Sprintf("after-chaos-fault-%d", s.chaosCount))
 	s.Drain()
 }
 
